@@ -54,6 +54,7 @@ MUTANTS = [
     m("c12-use-before-terminate-test", "R6", T, "            if terminate:\n                break\n            # progressively sample new state", "            # progressively sample new state"),
     m("c12-drop-isnan-guard", "R7", T, "            accept_prob = 0.0 if np.isnan(h_diff) else np.exp(min(0, h_diff))", "            accept_prob = np.exp(min(0, h_diff))"),
     m("c12-drop-h-sanitise", "R7", T, "                h = np.inf if np.isnan(h) else h\n", ""),
+    m("c12-flag-keys-swapped", "R6", T, "    elif isinstance(exception, NonReversibleStepError):\n        stats[\"non_reversible_step\"] = True\n    elif isinstance(exception, ConvergenceError):\n        stats[\"convergence_error\"] = True", "    elif isinstance(exception, NonReversibleStepError):\n        stats[\"convergence_error\"] = True\n    elif isinstance(exception, ConvergenceError):\n        stats[\"non_reversible_step\"] = True"),
     # twins
     m("c12-twin-nested-if", None, SO, "            if error < convergence_tol:\n                return x\n            x0 = x\n    except (ValueError, LinAlgError) as e:\n        # Make robust to errors in intermediate linear algebra ops\n        msg = f\"{type(e)} at iteration {i} of fixed point solver ({e}).\"\n        raise ConvergenceError(msg) from e\n    msg = f\"Fixed point iteration did not converge. Last error={error:.1e}.\"\n    raise ConvergenceError(msg)\n\n\ndef solve_fixed_point_steffensen(", "            if not error >= convergence_tol:\n                return x\n            x0 = x\n    except (ValueError, LinAlgError) as e:\n        # Make robust to errors in intermediate linear algebra ops\n        msg = f\"{type(e)} at iteration {i} of fixed point solver ({e}).\"\n        raise ConvergenceError(msg) from e\n    msg = f\"Fixed point iteration did not converge. Last error={error:.1e}.\"\n    raise ConvergenceError(msg)\n\n\ndef solve_fixed_point_steffensen(", twin=True),
     m("c12-twin-split-and", None, SO, "            if error < constraint_tol and norm(delta_pos) < position_tol:\n                state.mom -= np.sign(time_step) * dh2_flow_mom_dmom @ mu\n                return state\n            mu += delta_mu\n            state.pos -= delta_pos\n    except (ValueError, LinAlgError) as e:\n        # Make robust to errors in intermediate linear algebra ops\n        msg = f\"{type(e)} at iteration {i} of quasi-Newton", "            if error < constraint_tol:\n                if norm(delta_pos) < position_tol:\n                    state.mom -= np.sign(time_step) * dh2_flow_mom_dmom @ mu\n                    return state\n            mu += delta_mu\n            state.pos -= delta_pos\n    except (ValueError, LinAlgError) as e:\n        # Make robust to errors in intermediate linear algebra ops\n        msg = f\"{type(e)} at iteration {i} of quasi-Newton", twin=True),
